@@ -171,12 +171,26 @@ main(int argc, char **argv)
 
     }
 
-    /* PTY lookups: all 256 argument values (index i stands for (int8_t)i), RDS and RBDS */
+    /* PTY lookups: all 256 argument values (index i stands for (int8_t)i), RDS and RBDS.
+       "a constant string": every result is HELD while all the other lookups of the section are made
+       and read only afterwards, so that a result living in a buffer that a later call reuses shows. */
     SECTION("pty")
     {
         const char *(*fn[3])(rdsparser_pty_t, bool) =
             { rdsparser_pty_lookup_name, rdsparser_pty_lookup_short, rdsparser_pty_lookup_long };
         const char *nm[3] = { "name", "short", "long" };
+        static const char *held[3][2][256];
+        for (int k = 0; k < 3; k++)
+        {
+            for (int rbds = 0; rbds < 2; rbds++)
+            {
+                for (int i = 0; i < 256; i++)
+                {
+                    note(nm[k], (int8_t)i, rbds);
+                    held[k][rbds][i] = fn[k]((int8_t)i, rbds);
+                }
+            }
+        }
         for (int k = 0; k < 3; k++)
         {
             for (int rbds = 0; rbds < 2; rbds++)
@@ -186,7 +200,7 @@ main(int argc, char **argv)
                 {
                     note(nm[k], (int8_t)i, rbds);
                     printf("  ");
-                    print_bytes(fn[k]((int8_t)i, rbds));
+                    print_bytes(held[k][rbds][i]);
                     printf("%s\n", i < 255 ? ";" : "");
                 }
                 printf("]%%Z.\n\n");
@@ -194,15 +208,23 @@ main(int argc, char **argv)
         }
     }
 
-    /* country lookups: all 256 argument values */
+    /* country lookups: all 256 argument values, results held as above */
     SECTION("country")
     {
+    static const char *hname[256], *hiso[256];
+    for (int i = 0; i < 256; i++)
+    {
+        note("country_lookup_name", i, 0);
+        hname[i] = rdsparser_country_lookup_name((rdsparser_country_t)i);
+        note("country_lookup_iso", i, 0);
+        hiso[i] = rdsparser_country_lookup_iso((rdsparser_country_t)i);
+    }
     printf("Definition country_name : list (list Z) := [\n");
     for (int i = 0; i < 256; i++)
     {
         note("country_lookup_name", i, 0);
         printf("  ");
-        print_bytes(rdsparser_country_lookup_name((rdsparser_country_t)i));
+        print_bytes(hname[i]);
         printf("%s\n", i < 255 ? ";" : "");
     }
     printf("]%%Z.\n\n");
@@ -211,7 +233,7 @@ main(int argc, char **argv)
     {
         note("country_lookup_iso", i, 0);
         printf("  ");
-        print_bytes(rdsparser_country_lookup_iso((rdsparser_country_t)i));
+        print_bytes(hiso[i]);
         printf("%s\n", i < 255 ? ";" : "");
     }
     printf("]%%Z.\n");
